@@ -424,3 +424,18 @@ func TestC25_Sources(t *testing.T) {
 		Check: c25Check,
 	})
 }
+
+// FuzzC25: the same differential, coverage-guided (thorough tier).
+func FuzzC25(f *testing.F) {
+	f.Add([]byte("syntax = \"proto3\";\n/* c */ package a.b; // t\nimport public \"x/\" 'y.proto';\nimport weak \"w.proto\";\nmessage M { option (o) = { a: \"import \\\"z\\\";\" }; int32 x = 1; }\nimport \"late.proto\";\n"))
+	f.Add([]byte("edition = \"2023\"; import option \"o.proto\"; package p; enum E { A = 0 [deprecated = true]; }"))
+	rec := ev.NewRec(f, "C25", "FuzzC25", "")
+	f.Fuzz(func(t *testing.T, data []byte) {
+		if len(data) > 1<<14 {
+			return
+		}
+		if err := c25Check(srcCase{Name: "f.proto", Text: string(data)}, rec); err != nil {
+			t.Fatalf("%v", err)
+		}
+	})
+}
